@@ -54,6 +54,8 @@ class Interp(ExprMixin):
                 return self.eval_old(node.args[0])
             if f.id in ("forall", "exists"):
                 return self.eval_quant(f.id, node)
+            if f.id in ("forall_obj", "exists_obj"):
+                return self.eval_quant_obj(f.id, node)
             if f.id == "implies":
                 a = zb(to_bool_term(self.ev(node.args[0])))
                 self.ctx.guards.append(a)
@@ -174,6 +176,22 @@ class Interp(ExprMixin):
         if kind == "forall":
             return SBool(z3.ForAll(vars_, z3.Implies(zb(guard), body)))
         return SBool(z3.Exists(vars_, z3.And(zb(guard), body)))
+
+    def eval_quant_obj(self, kind, node):
+        """forall_obj(lambda x: body): quantification over opaque objects."""
+        lam = node.args[-1]
+        names = [a.arg for a in lam.args.args]
+        vars_ = [self.ctx.fresh(f"qo_{n}", TOpaque().sort()) for n in names]
+        saved = dict(self.frame.env)
+        for n, v in zip(names, vars_):
+            self.frame.env[n] = SOpaque(v, "any")
+        self.ctx.spec_mode += 1
+        try:
+            body = zb(to_bool_term(self.ev(lam.body)))
+        finally:
+            self.ctx.spec_mode -= 1
+            self.frame.env = saved
+        return SBool(z3.ForAll(vars_, body) if kind == "forall_obj" else z3.Exists(vars_, body))
 
     def call(self, fn, args, kwargs, node):
         if isinstance(fn, BoundMethod):
@@ -411,6 +429,28 @@ class Interp(ExprMixin):
             self.ctx.assume(z3.And(0 <= j, j < lst.len, lst.arr[j] == t,
                                    z3.ForAll([k], z3.Implies(z3.And(0 <= k, k < j), lst.arr[k] != t))))
             return SInt(j)
+        if name == "remove":
+            t = lst.elem.unwrap(args[0], self.ctx)
+            k = self.ctx.fresh("rmk", z3.IntSort())
+            found = z3.Exists([k], z3.And(0 <= k, k < lst.len, lst.arr[k] == t))
+            if not self.ctx.branch(found):
+                self.raise_py(ValueError, node)
+            p = self.list_index_term(lst, t)
+            self.ctx.assume(z3.And(0 <= p, p < lst.len, lst.arr[p] == t,
+                                   z3.ForAll([k], z3.Implies(z3.And(0 <= k, k < p), lst.arr[k] != t))))
+            # the first occurrence goes, the rest shifts left. The new contents are a fresh array related to the old one
+            # in both directions with explicit index maps (trigger-friendly; a lambda would hide the terms to match on)
+            i = z3.Int("rm_i")
+            old = lst.arr
+            n_old = lst.len
+            new = self.ctx.fresh("removed", old.sort())
+            self.ctx.assume(z3.ForAll([i], z3.Implies(z3.And(0 <= i, i < n_old - 1), new[i] == old[z3.If(i < p, i, i + 1)]),
+                                      patterns=[new[i]]))
+            self.ctx.assume(z3.ForAll([i], z3.Implies(z3.And(0 <= i, i < n_old, i != p), new[z3.If(i < p, i, i - 1)] == old[i]),
+                                      patterns=[old[i]]))
+            lst.arr = new
+            lst.len = z3.simplify(n_old - 1)
+            return None
         raise Unsupported(f"list.{name} on a symbolic list")
 
     def list_index_term(self, lst, t):
